@@ -3,6 +3,7 @@ import tables as T
 from cfg import cfg_of
 from flow import Taint, Tracker, callee_matches, field_reads, op_local, prep, backward
 from rules import CallGuard, CallSink, CmpGuard, RetSink, AggSink, BlockSink, compare_sites
+from rules import PL
 from props.C04 import call_results, TRK
 from panics import LOG_MACROS
 
@@ -175,7 +176,7 @@ def run(R):
         ok = ok and bool(srt) and bool(tk) and g.dominates(srt[0], tk[0])
         if ok:
             # take(expected_entries)
-            ok = op_local(g.term(tk[0])["args"][1]) in Taint(sp).closure(Taint(sp).var_locals("expected_entries"))
+            ok = op_local(g.term(tk[0])["args"][1]) in Taint(sp).closure(PL(sp, 2))
         if not ok:
             R.viol("C11.sort.peers", "sort-take", "sort_peers_by_key is not: sort ascending by distance, then take(expected_entries)", sp, sp.lines[0])
         R.inst("C11.sort.peers", "K10 polarity", "sort_by(a.dist.cmp(b.dist)) dominates take(expected_entries)", len(srt), ok)
@@ -197,7 +198,7 @@ def run(R):
                 any(b["term"]["k"] == "call" and callee_matches(b["term"], [NAD]) and b["term"]["d"] == [0] for b in (prep(c) or c.blocks))]
         ok = bool(srt) and bool(tk) and bool(keyf) and any(g.dominates(s, t) for s in srt for t in tk)
         if ok:
-            ok = any(op_local(g.term(t)["args"][1]) in Taint(cg).closure(Taint(cg).var_locals("num_of_peers")) for t in tk)
+            ok = any(op_local(g.term(t)["args"][1]) in Taint(cg, through="all").closure(PL(cg, 2)) for t in tk)
         if not ok:
             R.viol("C11.sort.closest", "sort-take", "calculate_get_closest_peers(num) is not sort_by_key(target.distance) then take(num)", cg, cg.lines[0])
         R.inst("C11.sort.closest", "K10 polarity", "closest-N = sort_by_key(target.distance(addr)) then take(num_of_peers)", len(srt), ok)
